@@ -425,7 +425,7 @@ func c04TextModelled(name string, data []byte) interface{} {
 func init() {
 	campaigns["C04"] = func(c *Ctx) {
 		eps := c04EntryPoints()
-		c.Rule = fmt.Sprintf("%d decode entry points found by reflection (package-level UnmarshalJSON/GobDecode; UnmarshalJSON, UnmarshalText, GobDecode, UnmarshalBinary of the 14 vocabulary structs and 12 leaf types). Inputs: empty, all 256 one-byte strings, 38 hand-picked JSON atoms and mistyped documents, nesting to depth 5k-200k of arrays, objects and strings-of-backslashes, 10^5-10^6-digit numbers and strings; the repository mocks and harness-written documents with structure-aware mutations (truncation, value replaced by another kind, byte flip, duplicated/deleted chunk, array wrapping, non-UTF-8, brace swaps); valid gob streams of generated values with truncation, byte flips, length bombs, random bytes. Every call runs in a child process with a deadline; a panic, a dead or silent child, more than 2 s, or allocation beyond 64 MiB + 400 x input size is a failure; every returned value then goes through MarshalJSON, GobEncode, ItemsEqual(v,v), accessors, Format, Flatten, Recipients under recover. Correspondence: the three hand-written text unmarshalers against their Lean models with an explicit panic outcome, exhaustively on all strings of length <= 3 over {quote, backslash, a} plus random strings.", len(eps))
+		c.Rule = fmt.Sprintf("%d decode entry points found by reflection (package-level UnmarshalJSON/GobDecode; UnmarshalJSON, UnmarshalText, GobDecode, UnmarshalBinary of the 14 vocabulary structs and 12 leaf types). Inputs: empty, all 256 one-byte strings, 38 hand-picked JSON atoms and mistyped documents, nesting to depth 5k-200k of arrays, objects and strings-of-backslashes, 10^5-10^6-digit numbers and strings; every ordered pair of the vocabulary's 55 type names as neighbours in one decoded list; 54 hostile scalars (padded signs, partial durations and instants, non-numbers) as string and as raw value under each of 16 typed terms; the repository mocks and harness-written documents with structure-aware mutations (truncation, value replaced by another kind, byte flip, duplicated/deleted chunk, array wrapping, non-UTF-8, brace swaps); valid gob streams of generated values with truncation, byte flips, length bombs, random bytes. Every call runs in a child process with a deadline; a panic, a dead or silent child, more than 2 s, or allocation beyond 64 MiB + 400 x input size is a failure; every returned value then goes through MarshalJSON, GobEncode, ItemsEqual(v,v), accessors, Format, Flatten, Recipients under recover. Correspondence: the three hand-written text unmarshalers against their Lean models with an explicit panic outcome, exhaustively on all strings of length <= 3 over {quote, backslash, a} plus random strings.", len(eps))
 		proc, err := c04Start()
 		if err != nil {
 			c.Fail("C04/harness", "cannot start the child: "+err.Error(), nil)
@@ -433,7 +433,12 @@ func init() {
 		}
 		defer func() { proc.kill() }()
 		limit := 20 * time.Second
+		deaths := 0
 		runCase := func(idx int, data []byte, tag string) {
+			if deaths >= 3 {
+				c.Tag("skipped-after-3-deaths")
+				return // every death costs a process and (for stack exhaustion) seconds: three are enough to report
+			}
 			in := map[string]interface{}{"ep": eps[idx].name, "hex": hex.EncodeToString(data)}
 			if len(data) > 4096 {
 				in = map[string]interface{}{"ep": eps[idx].name, "gen": tag, "len": len(data)}
@@ -443,6 +448,7 @@ func init() {
 			res, dead := proc.run(idx, data, limit)
 			if dead != "" {
 				c.Fail("C04/dead:"+eps[idx].name, eps[idx].name+": "+dead, in)
+				deaths++
 				proc.kill()
 				proc, _ = c04Start()
 				return
@@ -490,6 +496,40 @@ func init() {
 			runCase(idx, []byte(`{"type":"Place","latitude":`+strings.Repeat("9", big)+`}`), "big/number")
 			runCase(idx, []byte(`{"type":"Note","name":"`+strings.Repeat("a", big)+`"}`), "big/string")
 			runCase(idx, []byte(`{"type":"Note","to":[`+strings.Repeat(`"https://example.com/a",`, big/30)+`"https://example.com/a"]}`), "big/list-of-equal-iris")
+		}
+		// 2b. every ordered pair of vocabulary types as neighbours in one list (decoding compares members)
+		var typeNames []string
+		for _, gt := range allGoTypes {
+			typeNames = append(typeNames, vocab[gt]...)
+		}
+		sort.Strings(typeNames)
+		for i, a := range typeNames {
+			for j, b := range typeNames {
+				if !c.Thorough() && (i*len(typeNames)+j)%3 != int(c.Seed%3) && !(i < 12 || j < 12) {
+					continue
+				}
+				doc := fmt.Sprintf(`{"type":"OrderedCollection","id":"https://example.com/c","orderedItems":[{"type":%q,"id":"https://example.com/1"},{"type":%q,"id":"https://example.com/2","name":"x"},{"type":%q,"id":"https://example.com/1"}]}`, a, b, a)
+				runCase(0, []byte(doc), "type-pairs")
+			}
+		}
+		// 2c. hostile scalars in every typed position
+		scalars := []string{"", " ", "-", "- ", " -", "-\n", "\t-", "+", "P", "-P", "P ", " P", "PT", "-PT", "P-", "PT-", "P1", "1", "T", "PT1", "PT1.S", "PT.5S", "P1Y2M3DT4H5M6.7S", "PT-1S", "P-1D", "PP", "PTT", "P1S", "PT1D", "P1.5D",
+			"Z", "2020", "2020-01-01", "2020-01-01T", "2020-01-01T00:00:00", "9999-99-99T99:99:99Z", "-0001-01-01T00:00:00Z", "T00:00:00Z", "2020-01-01T00:00:00+99:99", "2020-01-01 00:00:00Z",
+			"true", "null", "1e5", "0x10", "NaN", "Infinity", "-", "--1", "1-", ".", "1.", ".1", "1e", "١٢٣"}
+		terms := []string{"duration", "published", "updated", "startTime", "endTime", "deleted", "latitude", "radius", "totalItems", "startIndex", "closed", "height", "units", "mediaType", "hrefLang", "formerType"}
+		for _, term := range terms {
+			for _, sc := range scalars {
+				for _, typ := range []string{"Note", "Place", "Question", "OrderedCollectionPage", "Link", "Tombstone"} {
+					if !c.Thorough() && typ != "Note" && !(typ == "Place" && (term == "latitude" || term == "radius" || term == "units")) && !(typ == "Question" && term == "closed") &&
+						!(typ == "OrderedCollectionPage" && (term == "totalItems" || term == "startIndex")) && !(typ == "Link" && (term == "height" || term == "hrefLang")) && !(typ == "Tombstone" && (term == "deleted" || term == "formerType")) {
+						continue
+					}
+					runCase(0, []byte(fmt.Sprintf(`{"type":%q,"id":"https://example.com/x",%q:"%s"}`, typ, term, sc)), "typed-scalars/string")
+					if json.Valid([]byte(sc)) {
+						runCase(0, []byte(fmt.Sprintf(`{"type":%q,"id":"https://example.com/x",%q:%s}`, typ, term, sc)), "typed-scalars/raw")
+					}
+				}
+			}
 		}
 		// 3. mutated JSON documents
 		jc := c04JSONCorpus(c)
